@@ -138,11 +138,19 @@ impl<'de, R: Reader<'de>> Parser<R> {
             res.is_ok() ==> str_end(old(self).read.data(), old(self).read.idx() as int) == Some(final(self).read.idx() as int)
                 && (match res.unwrap() { Reference::Borrowed(t) => str_bytes(t), Reference::Copied(t) => str_bytes(t) })
                     == decoded(old(self).read.data(), old(self).read.idx() as int, final(self).read.idx() - 1)
-                // borrowed exactly when the literal has no escape (proved for parse_string_raw in unit `strings`)
-                && ((res.unwrap() is Borrowed) <==> !has_bs(old(self).read.data(), old(self).read.idx() as int, final(self).read.idx() as int)),
+                // proved for the real parse_str in unit `strings`: a borrowed result has no escape; in the default
+                // configuration it is borrowed exactly when it has no escape (utf8_lossy: a repaired text is a copy)
+                && ((res.unwrap() is Borrowed) ==> !has_bs(old(self).read.data(), old(self).read.idx() as int, final(self).read.idx() as int))
+                && (!old(self).cfg.utf8_lossy ==> ((res.unwrap() is Borrowed) <==> !has_bs(old(self).read.data(), old(self).read.idx() as int, final(self).read.idx() as int))),
             str_end(old(self).read.data(), old(self).read.idx() as int).is_none() ==> res.is_err(),
             final(self).read.idx() >= old(self).read.idx(),
     { unimplemented!() }
+}
+
+/// the callback a string literal makes: its decoded text, borrowed exactly when it has no escape — with utf8_lossy a
+/// text that had to be repaired is handed over as a copy even without an escape
+pub open spec fn str_call<'de, V: Visitor<'de>>(visitor: V, res: Result<V::Value>, text: Seq<u8>, no_escape: bool, lossy: bool) -> bool {
+    res == visitor.on_str(text, no_escape) || (lossy && res == visitor.on_str(text, false))
 }
 
 //@extract file=src/serde/de.rs fn=visit_number
@@ -274,7 +282,7 @@ impl<'de, R: Reader<'de>> Deserializer<R> {
                 &&& (s[p] == 0x6e ==> lit_end(s, p + 1, ull()).is_some() && res == visitor.on_unit() && e == p + 4)
                 &&& (s[p] == 0x74 ==> lit_end(s, p + 1, rue()).is_some() && res == visitor.on_bool(true) && e == p + 4)
                 &&& (s[p] == 0x66 ==> lit_end(s, p + 1, alse()).is_some() && res == visitor.on_bool(false) && e == p + 5)
-                &&& (s[p] == 0x22 ==> str_end(s, p + 1) == Some(e) && res == visitor.on_str(decoded(s, p + 1, e - 1), !has_bs(s, p + 1, e)))
+                &&& (s[p] == 0x22 ==> str_end(s, p + 1) == Some(e) && str_call(visitor, res, decoded(s, p + 1, e - 1), !has_bs(s, p + 1, e), old(self).parser.cfg.utf8_lossy))
                 &&& (s[p] == 0x5b ==> e >= 1 && s[e - 1] == 0x5d)
                 &&& (s[p] == 0x7b ==> e >= 1 && s[e - 1] == 0x7d)
                 &&& (s[p] == 0x6e || s[p] == 0x74 || s[p] == 0x66 || s[p] == 0x22 || s[p] == 0x5b || s[p] == 0x7b || s[p] == 0x2d || is_digit(s[p]))
@@ -398,7 +406,7 @@ impl<'de, R: Reader<'de>> Deserializer<R> {
                 // only a string literal is accepted; the visitor gets its decoded text, borrowed iff it has no escape
                 res.is_ok() ==> p < s.len() && s[p] == 0x22 && str_end(s, p + 1).is_some()
                     && final(self).parser.read.idx() == str_end(s, p + 1).unwrap()
-                    && res == visitor.on_str(decoded(s, p + 1, str_end(s, p + 1).unwrap() - 1), !has_bs(s, p + 1, str_end(s, p + 1).unwrap()))
+                    && str_call(visitor, res, decoded(s, p + 1, str_end(s, p + 1).unwrap() - 1), !has_bs(s, p + 1, str_end(s, p + 1).unwrap()), old(self).parser.cfg.utf8_lossy)
             }),
 //@body
         proof { lemma_ws_end_bounds(self.parser.read.data(), self.parser.read.idx() as int); }
